@@ -482,11 +482,21 @@ type Lemma struct {
 }
 
 type PkgContracts struct {
-	Pkg    string
-	Funcs  map[string]*FuncContract
-	Macros map[string]*Macro
-	Lemmas map[string]*Lemma
-	Order  []string
+	Pkg      string
+	Funcs    map[string]*FuncContract
+	Macros   map[string]*Macro
+	Lemmas   map[string]*Lemma
+	Order    []string
+	Ghosts   []*Ghost
+	ChanInvs map[string][]*Clause // "Type.field" -> invariant over v
+}
+
+// Ghost is a specification-only global: a scalar ("int"/"bool") or a map
+// from references/integers to a scalar ("map[int]int", "map[int]bool").
+type Ghost struct {
+	Name  string
+	IsMap bool
+	Elem  string // int | bool
 }
 
 var clauseKeywords = map[string]bool{
@@ -494,6 +504,7 @@ var clauseKeywords = map[string]bool{
 	"requires": true, "ensures": true, "modifies": true, "loop": true, "maypanic": true,
 	"opaque": true, "pure": true, "assume": true, "noinline": true, "overflow": true,
 	"wraps": true, "fresh": true, "at": true, "induction": true, "params": true,
+	"ghost": true, "chaninv": true,
 }
 
 // parseContractLines parses the "//@" lines of one package.
@@ -526,6 +537,38 @@ func parseContractLines(pkg string, lines []string) (*PkgContracts, error) {
 	for _, s := range stmts {
 		kw, rest := splitKeyword(s)
 		switch kw {
+		case "ghost":
+			f := strings.Fields(rest)
+			if len(f) != 2 {
+				return nil, fmt.Errorf("%s: bad ghost declaration %q", pkg, s)
+			}
+			g := &Ghost{Name: f[0], Elem: f[1]}
+			if strings.HasPrefix(f[1], "map[int]") {
+				g.IsMap = true
+				g.Elem = strings.TrimPrefix(f[1], "map[int]")
+			}
+			if g.Elem != "int" && g.Elem != "bool" {
+				return nil, fmt.Errorf("%s: ghost %s: unsupported type %s", pkg, f[0], f[1])
+			}
+			pc.Ghosts = append(pc.Ghosts, g)
+			cur, curLemma = nil, nil
+		case "chaninv":
+			// chaninv Type.field: E   (E over the transferred value v)
+			k := strings.Index(rest, ":")
+			if k < 0 {
+				return nil, fmt.Errorf("%s: bad chaninv %q", pkg, s)
+			}
+			label, src := splitLabel(rest[k+1:])
+			e, err := parseExpr(src)
+			if err != nil {
+				return nil, fmt.Errorf("%s: %s: %v", pkg, s, err)
+			}
+			if pc.ChanInvs == nil {
+				pc.ChanInvs = map[string][]*Clause{}
+			}
+			key := strings.TrimSpace(rest[:k])
+			pc.ChanInvs[key] = append(pc.ChanInvs[key], &Clause{Kind: "chaninv", Label: label, Src: src, E: e})
+			cur, curLemma = nil, nil
 		case "spec", "pred":
 			m, err := parseMacro(kw, rest)
 			if err != nil {
